@@ -91,14 +91,32 @@ def split_runs(beh):
     return [r for r in runs if r and r[-1]["state"]["pc"] == "done"]
 
 
-def replay_behaviour(beh, cid, ids):
+def plan_of(beh):
+    """JSON-able description of a behaviour: the source object and, per call of the history,
+    (call, n, method, alpha, threshold, samples the sampler must return)."""
+    runs = split_runs(beh)
+    if not runs:
+        return None
+    def j(o):
+        return {k: (list(v) if isinstance(v, tuple) else v) for k, v in dict(o).items()}
+    plan = {"src": j(runs[0][-1]["state"]["src"]), "runs": []}
+    for run_ in runs:
+        last = run_[-1]["state"]
+        st = [s for s in run_ if s["action"] == "Start"][0]
+        asm = [s for s in run_ if s["action"] == "Assemble"][0]
+        plan["runs"].append({"call": st["args"][0], "n": st["args"][1], "method": asm["args"][0],
+                             "alpha": asm["args"][1], "thr": last["thr"],
+                             "produced": [j(p) for p in last["produced"]]})
+    return plan
+
+
+def replay_behaviour(plan, cid, ids):
     """Drive the real loop along one TLC behaviour of BootLoop: the same real
     object and the same metric callable serve every call of the history."""
     from score_analysis import BootstrapConfig
-    runs = split_runs(beh)
-    if not runs:
+    if not plan:
         return []
-    src_a = runs[0][-1]["state"]["src"]
+    src_a = plan["src"]
     evs = []
     rec = Recorder(evs, ids, cid, cid)
     inv = sd.inv_map(G)
@@ -107,14 +125,9 @@ def replay_behaviour(beh, cid, ids):
     mname = "vec" if cid % 3 == 0 else "fp_count"
     ncomp = 2 if mname == "vec" else 1
     metric = make_metric(rec, mname, inv, kw_seen)
-    for run_ in runs:
-        last = run_[-1]["state"]
-        st = [s for s in run_ if s["action"] == "Start"][0]
-        asm = [s for s in run_ if s["action"] == "Assemble"][0]
-        call, n = st["args"]
-        method, alpha = asm["args"]
-        thr = last["thr"]
-        produced = [dict(p) for p in last["produced"]]
+    for run_ in plan["runs"]:
+        call, n, method, alpha, thr = run_["call"], run_["n"], run_["method"], run_["alpha"], run_["thr"]
+        produced = [dict(p) for p in run_["produced"]]
         queue = [sd.build(p, G) if p != src_a else src for p in produced]
         calls = {"i": 0}
 
@@ -272,11 +285,12 @@ def run(ctx: core.Ctx):
     ids = iter(range(1, 10**9))
     events, cases = [], []
     for b in behs:
-        evs = replay_behaviour(b, len(cases), ids)
+        plan = plan_of(b)
+        evs = replay_behaviour(plan, len(cases), ids)
         if evs:
             events += evs
-            cases.append({"kind": "tlc_behaviour", "steps": [[s["action"], list(map(str, s["args"]))] for s in b]})
-            ctx.nontrivial.add(json.dumps(cases[-1], sort_keys=True))
+            cases.append({"kind": "tlc_behaviour", "cid": len(cases), "plan": plan})
+            ctx.nontrivial.add(json.dumps(plan, sort_keys=True))
     ctx.extra["tlc_behaviours_replayed"] = len(cases)
     for k in range(par["nseed"]):
         evs, o = seeded_behaviour(k, len(cases), ids, ctx.seed)
@@ -306,7 +320,6 @@ def replay(ctx: core.Ctx, body):
     elif c.get("kind") == "group":
         evs = group_behaviour(c["k"], 0, ids, body.get("seed", ctx.seed))
     else:
-        print("replay of TLC behaviours: re-run the check with the same VERIF_SEED", flush=True)
-        evs = []
+        evs = replay_behaviour(c["plan"], c.get("cid", 0), ids)
     ctx.judge("Trace_C14", evs, cases=[c], env_extra={"TABLES_FILE": str(tables)})
     return ctx.finish()
